@@ -18,7 +18,7 @@ LEVEL = "exploration"
 RULE = (
     "one case per (history, prefix, probe): histories of 1-12 assemblies in one process (valid programs, programs failing in the scanner, "
     "parser, expansion, label pass and emission, .map programs, other ROM types, programs whose data ends with the last byte of a mapped region, programs that abandon an expression half-way, programs re-using the probes' macro/symbol/label/table/"
-    "file names with other contents, file-API and in-process CLI runs) followed after every prefix by 31 probes (LoROM, HiROM, low2, .map, "
+    "file names with other contents, file-API and in-process CLI runs) followed after every prefix by 33 probes (LoROM, HiROM, low2, .map, "
     "macros, tables, .incbin, -D, failing probes); each probe result (blocks, labels, root symbols, error kind and text with object "
     "addresses normalised) is compared with the same probe assembled alone in a fresh interpreter, and probes are repeated; batches of probes are also assembled on Program objects that were all constructed before the first of them ran; distinct by "
     "hash of (history prefix, probe); non-trivial = every comparison against a fresh-process baseline"
@@ -74,6 +74,8 @@ def fixed_probes() -> list[dict]:
         {"name": "fail_unmapped_hirom_low_bank", "src": "*=0xC08000\n.db 1\n*=0x008000\n.db 2\n", "rom": "high"},
         {"name": "fail_runs_off_last_bank", "src": "*=0x6FFFFE\n.dl 1, 2\n", "rom": None},
         {"name": "first_expression", "src": ".db 0x12, 0x34\n", "rom": None},
+        {"name": "fail_include_bare_name", "src": "*=0x008000\n.db 1\n.include 'common_inc.s'\n.db 2\n", "rom": None},
+        {"name": "fail_incbin_bare_name", "src": "*=0x008000\n.incbin 'common_blob.bin'\n", "rom": None},
         {"name": "map_without_identifier", "src": ".map bank_range=0x00, 0x3f addr_range=0x8000, 0xffff mask=0x8000\n.map identifier=2 bank_range=0x7e, 0x7f addr_range=0x0000, 0xffff mask=0x10000 writable=1\n"
                                                    "*=0x018000\nstart:\n.db 5\n.dl start\n", "rom": None},
         {"name": "api_text_accented", "via": "api", "fmt": "patch", "rom": "low", "files": {"acc.tbl": "01=c\n02=a\n03=f\n8A=\u00e9\n8B=\u30a2\n"},
@@ -104,6 +106,22 @@ def _write_project_files(files: dict | None) -> None:
 
 def run_action(a: dict):
     kind = a.get("via", "mem")
+    if kind == "api_project":
+        # another project of the same build: its source, its include file and its binary live in a directory of their own
+        from a816.program import Program
+
+        d = a["dir"]
+        os.makedirs(d, exist_ok=True)
+        for name, content in a["files"].items():
+            with open(os.path.join(d, name), "wb") as f:
+                f.write(content.encode("utf-8") if isinstance(content, str) else bytes(content))
+        prog = Program()
+        try:
+            return prog.assemble_as_patch(os.path.join(d, "main.s"), os.path.join(d, "out.ips"))
+        except BaseException as e:  # noqa: BLE001
+            if isinstance(e, KeyboardInterrupt):
+                raise
+            return None
     if kind == "mem":
         if _project_dir["on"]:
             _write_project_files(a.get("files"))
@@ -162,6 +180,10 @@ def history_action(rng: random.Random) -> dict:
     addr = rng.choice(ADDRS)
     rom = rng.choice([None, "low", "high", "low2"])
     extra = rng.random()
+    if extra > 0.95:
+        d = rng.choice(["proj_a", "proj_b/src", os.path.join(os.getcwd(), "proj_abs")])
+        return {"what": "other_project", "via": "api_project", "dir": d, "src": "", "rom": None,
+                "files": {"main.s": f"*={addr:#x}\n.db 1\n.include '{d}/common_inc.s'\n", "common_inc.s": ".db 0x63, 0x03\n", "common_blob.bin": b"\x63\x03\x60"}}
     if extra < 0.04:
         # a source file that is no valid UTF-8 (a comment saved as Latin-1) through a file front end: it fails, and that is all
         return {"what": "undecodable_source", "via": rng.choice(["api", "cli"]), "fmt": "patch" if rng.random() < 0.5 else "sfc", "rom": rng.choice(["low", "high"]),
